@@ -118,6 +118,15 @@ Definition db_write (d : dbc) (k : bytes) (del : bool) (v : bytes) : dbc * bool 
   let mt_full := d_mem d <? mt_size m in
   if wal_full || mt_full then (db_rotate d1, true) else (d1, false).
 
+(* The same write with the rotation decision as DATA: [rot] says whether the implementation rotated after this write (observed by the
+   harness). When a memtable or a WAL buffer counts as full is a policy (sizes, what is carried over a checkpoint) that the property
+   does not talk about: the world model replays the observed decisions, and the theorems hold for every choice of [rot]. *)
+Definition db_put (d : dbc) (k : bytes) (del : bool) (v : bytes) : dbc :=
+  let e := mkE k (d_seq d + 1) del (if del then [] else v) in
+  mkDb (d_seq d + 1) (mt_put (d_active d) e) (d_sealed d) (d_tables d) (d_latest d) (wal_put (d_wal d) e) (d_mem d) (d_walmax d).
+Definition db_write_at (d : dbc) (k : bytes) (del : bool) (v : bytes) (rot : bool) : dbc :=
+  if rot then db_rotate (db_put d k del v) else db_put d k del v.
+
 (* flush task: F1 snapshots the sealed list and writes one table per memtable (numbers next, next+1, ...);
    F2 swaps: tables appended, the snapshotted memtables dequeued, LatestSeqNum raised, WAL truncated *)
 Fixpoint mk_tables (dir next : N) (ms : list (list entry)) : list table :=
